@@ -165,7 +165,7 @@ def register(claim, na):
 
 # clauses added in session 2, rounds 2-3 (appended to the claim text; the rule catalogue with techniques is DESIGN.md 4c)
 ADDED = {
-    "C01": "R-ERICSON: the six Voronoi-region tests of closest_point_triangle are Ericson's conditions (names resolved to the vertices).",
+    "C01": "R-WEIGHTROLE: in get_barycentric_coordinates_plane the weights of an edge stay with its two vertices, the third is 0 and closed-form weights sum to 1. R-ERICSON: the six Voronoi-region tests of closest_point_triangle are Ericson's conditions (names resolved to the vertices).",
     "C02": "R-ERICSON (jolt triangle solver); R-MAINLOOP (the two Nesterov main loops are statement-for-statement the same shape); R-PORTALDIR (the portal "
            "direction used with the length tolerance of MPR is unit).",
     "C03": "R-BASISGUARD (plane_basis_from_normal branches on magnitudes before dividing by the length of the winning pair); R-ADJACENCY (each vertex of a mesh "
